@@ -32,8 +32,8 @@ def build_case(rng, spec, tier):
     pool, text = make_pool(rng, n=rng.choice(prof.get("pool", (8, 14))), classes=prof.get("classes", ("real", "long")), long_ok=True)
     cfg = make_cfg(rng, pool, backends=("file",), rule_prob=0.5, max_rules=2)
     w = dict(prof.get("weights", {}))
-    w["reopen"] = 0
-    w["clear"] = 0
+    w["reopen"] = 0.5
+    w["clear"] = 0.7
     ops = gen_history(rng, cfg, pool, text, rng.choice(tp.get("nops", (5, 12, 20))), weights=w)
     return {"engine": "crashcut", "cfg": cfg, "ops": ops, "aseed": rng.getrandbits(32)}
 
@@ -50,15 +50,26 @@ def record(case, scratch, stats, fail_at=None):
         sut = Sut(case["cfg"], scratch, Counter())
         record.ctor_writes = M.WRITES[0] - w0
         rules = {a: RX[r] for a, r in case["cfg"]["rules"]}
+        facts = None
+        if fail_at is None:
+            facts = [(len(M.LOG), final_facts(sut.t))]
         for op in case["ops"]:
             if op["op"] == "rule":
                 rules[op["anchor"]] = RX[op["rule"]]
+            if op["op"] == "clear" and op.get("rules") is not None:
+                for a, r in op["rules"]:
+                    rules[a] = RX[r]
             sut.apply(op)
             if sut.dead:
                 break
-        facts = None
+            if fail_at is None:
+                # what the history completed up to and including this request reports
+                M.LOG_ON[0] = False
+                try:
+                    facts.append((len(M.LOG), final_facts(sut.t)))
+                finally:
+                    M.LOG_ON[0] = True
         if fail_at is None:
-            facts = final_facts(sut.t)
             feats = features(sut)
         else:
             feats = {}
@@ -100,28 +111,52 @@ def final_facts(t):
     return {"pages": pages, "out": outw, "in": inw}
 
 
+def allowed_facts(facts, pos):
+    """Union of what the history reports before and after the request that log
+    event number `pos` belongs to (pages; per-direction link weights)."""
+    i = 0
+    while i + 1 < len(facts) and facts[i + 1][0] <= pos:
+        i += 1
+    before = facts[i][1]
+    after = facts[min(i + 1, len(facts) - 1)][1]
+    pages = dict(before["pages"])
+    for l, c in after["pages"].items():
+        pages[l] = pages.get(l, False) or c
+    out = dict(before["out"])
+    for k2, v in after["out"].items():
+        out[k2] = max(out.get(k2, 0), v)
+    inn = dict(before["in"])
+    for k2, v in after["in"].items():
+        inn[k2] = max(inn.get(k2, 0), v)
+    return {"pages": pages, "out": out, "in": inn}
+
+
 def cuts(log, byte_offsets, rng):
-    """Yield (label, {name: bytes or None}) for every cut of the log."""
+    """Yield (label, {name: bytes or None}) for every cut of the log.  The label
+    starts with the number of log events applied (the last one possibly in part)."""
     files = {n: None for n in NAMES}
     yield ("0", dict(files))
-    k = 0
-    for e in log:
+    for idx, e in enumerate(log):
+        k = idx + 1
         if e[0] == "open":
             if "w" in e[2]:
                 files[e[1]] = b""
             elif files[e[1]] is None:
                 files[e[1]] = b""
-            k += 1
             yield ("%d:open" % k, dict(files))
         elif e[0] == "write":
             _, name, pos, data = e
             cur = files[name] or b""
-            k += 1
             if pos >= len(cur):
                 # append: byte-granular cuts
-                offs = range(1, len(data)) if byte_offsets == "all" else sorted({1, len(data) // 2, len(data) - 1} if byte_offsets else [])
-                if byte_offsets not in ("all", 0, None) and isinstance(byte_offsets, int) and byte_offsets > 3:
+                if byte_offsets == "all":
+                    offs = range(1, len(data))
+                elif not byte_offsets:
+                    offs = []
+                elif isinstance(byte_offsets, int) and byte_offsets > 3:
                     offs = sorted(set(rng.randrange(1, len(data)) for _ in range(byte_offsets)) | {1, len(data) - 1})
+                else:
+                    offs = sorted({1, len(data) // 2, len(data) - 1})
                 for o in offs:
                     f2 = dict(files)
                     f2[name] = cur + b"\0" * (pos - len(cur)) + data[:o]
@@ -217,7 +252,7 @@ def run_case(prop, case, spec, scratch, stats, tier_params):
         return out, feats, ""
     folder = tempfile.mkdtemp(prefix="vtcut", dir=scratch)
     default = RX[case["cfg"]["default"]]
-    probes = sorted(facts["pages"])[:4] + [b"s:http|h:zz|"]
+    probes = sorted(facts[-1][1]["pages"])[:4] + [b"s:http|h:zz|"]
     seen = set()
     try:
         for label, files in cuts(log, tier_params.get("byte_offsets", 3), rng):
@@ -228,7 +263,8 @@ def run_case(prop, case, spec, scratch, stats, tier_params):
                 stats["C18_cuts_same_bytes_as_earlier_cut"] += 1
                 continue
             seen.add(key)
-            d = check_cut(folder, files, rules, default, facts, probes, stats, label)
+            pos = int(label.split(":")[0])
+            d = check_cut(folder, files, rules, default, allowed_facts(facts, max(0, pos - 1)), probes, stats, label)
             if d:
                 d["detail"]["n_writes"] = nwrites
                 out.append(d)
